@@ -234,7 +234,7 @@ def main(repo, out):
         return 'Definition %s (k : %s) := match k with %s end.\n' % (name, ty, arms)
     lst = lambda l: '[' + '; '.join(l) + ']'
     text = '(* GENERATED by gen/tcdispatch.py from src/passes/type_check.rs and src/ast/mod.rs -- do not edit *)\n'
-    text += 'From TV Require Import Base.I32 Model.Typing.\n'
+    text += 'From TV Require Import Base.I32 Model.TypeCheck.\n'
     text += mk('gen_srow', 'skind', SKINDS, srows, 'K_')
     text += 'Definition gen_irow (k : ikind) := match k with %s end.\n' % ' '.join('| %s => %s' % (IK_COQ[n], irows[n]) for n in IKINDS)
     text += mk('gen_walk_stmt', 'skind', SKINDS, wstmt, 'K_', lst)
